@@ -19,6 +19,8 @@ mod pool;
 mod connleaf;
 mod poolmt;
 mod cfgp;
+mod toc;
+mod tlsch;
 mod server;
 mod tls;
 mod tcpc;
@@ -56,6 +58,8 @@ fn gen(stream: &str, seed: u64, n: u64) -> Vec<String> {
                 "conn" => connleaf::gen(&mut r, i),
                 "poolmt" => poolmt::gen(&mut r, i),
                 "cfgp" => cfgp::gen(&mut r, i),
+                "toc" => toc::gen(&mut r, i),
+                "tlsch" => tlsch::gen(&mut r, i),
                 "srv" => server::gen(&mut r, i),
                 "tls" => tls::gen(&mut r, i),
                 "tcpc" => tcpc::gen(&mut r, i),
@@ -93,6 +97,8 @@ fn run_line(line: &str) -> String {
         "conn" => connleaf::run(&toks),
         "poolmt" => poolmt::run(&toks),
         "cfgp" => cfgp::run(&toks),
+        "toc" => toc::run(&toks),
+        "tlsch" => tlsch::run(&toks),
         "srv" => server::run(&toks),
         "tls" => tls::run(&toks),
         "tcpc" => tcpc::run(&toks),
